@@ -116,7 +116,7 @@ def _c02_one(ctx: Any, case: Dict[str, Any], name: str) -> None:
     ws = Workspace(ctx.scratch, name)
     try:
         hists = case["hists"]
-        res = _run(ctx, ws, hists, case["country"], case["args"], None)
+        res = _run(ctx, ws, hists, case["country"], case["args"], {int(k): v for k, v in case.get("ini_methods", {}).items()} or None)
         ctx.count("executions")
         ctx.count("cli_runs")
         models = {a: Model(h) for a, h in hists.items()}
@@ -178,6 +178,18 @@ def c02(ctx: Any, total: int) -> None:
         hists = cli_histories(rng, rng.choice((1, 2)), cli_profile(p_earn=0.4))
         method = rng.choice(COUNTRY_METHODS[country])
         args = ["-m", method, "-g", rng.choice(COUNTRY_LANGUAGES[country])]
+        ini_methods = None
+        if index % 2 == 0:
+            # the year -> method schedule comes from the config (entries in any order, a method may be repeated for several years)
+            country = "us" if index % 4 == 0 else "generic"
+            args = ["-m", method, "-g", "en"]
+            years = sorted({y for h in hists.values() for y in own_years(h)})
+            ini_methods = {1970: rng.choice(COUNTRY_METHODS[country])}
+            for y in range(years[0] + 1, years[-1] + 2):
+                if rng.random() < 0.6:
+                    ini_methods[y] = ini_methods[max(ini_methods)] if rng.random() < 0.4 else rng.choice(COUNTRY_METHODS[country])
+            args = args[2:]
+            ctx.count("cli_runs_with_schedule_from_config")
         if i % 2 == 1:
             asset = rng.choice(sorted(hists))
             mutant = families.total_overspend(hists[asset], rng)
@@ -185,7 +197,7 @@ def c02(ctx: Any, total: int) -> None:
                 hists = dict(hists, **{asset: mutant})
             if rng.random() < 0.5:
                 args.append("-n")
-        _c02_one(ctx, _case(hists, country, args, None), f"c02-{index}")
+        _c02_one(ctx, _case(hists, country, args, ini_methods), f"c02-{index}")
 
 
 def c02_replay(ctx: Any, case: Dict[str, Any]) -> None:
